@@ -255,6 +255,7 @@ package rosmar
 //@   ensures [C08:postEvent.shared-event-intact] *event == old(*event)
 //@   loop 1 invariant [C08:postEvent.loop-intact] *event == old(*event)
 //@   loop 1 invariant [C08:postEvent.loop-one-push] iter("list.pushfront") <= 1
+//@   ensures [C08,C16:postEvent.reaches-every-feed] !leftloopearly()
 //@   ensures [C20:postEvent.unlocked] any: nolocks()
 //@
 //@ fn (*event).asFeedEvent
@@ -446,6 +447,7 @@ package rosmar
 //@
 //@ fn (*bucketRegistry).deleteBucket
 //@   ensures [C13:deleteBucket.removed] !haskey(r.buckets, bucket.name) && !haskey(r.bucketCount, bucket.name)
+//@   ensures [C13:deleteBucket.deletes-files] count("call:DeleteBucketAt") == 1 && callarg("DeleteBucketAt", 0) == bucket.url && result == callret("DeleteBucketAt", 0)
 //@   ensures [C13,C20:deleteBucket.unlocked] any: nolocks()
 //@
 //@ fn deleteBucket
